@@ -301,6 +301,18 @@ def _composite(a, b, cs, icvn, excluded, acc, fname, de):
         # composite cut off after k components: every required component behind the cut is missing
         if any(used[:k]):
             variants['truncated-%d' % k] = used[:k]
+    # a date time period format qualifier (1250) inside the composite governs the 1251 component behind it
+    qi = [i for i, c in enumerate(b.children) if c.de == '1250' and c.usage != 'N']
+    di = [i for i, c in enumerate(b.children) if c.de == '1251' and c.usage != 'N']
+    if qi and di and qi[0] < di[0]:
+        for q in [x for x in b.children[qi[0]].codes if x in ('D8', 'RD8', 'D6', 'DT', 'TM')][:4]:
+            for label, val in (('well-formed', {'D8': '20040229', 'RD8': '20040101-20040229', 'D6': '040229', 'DT': '200402291230', 'TM': '1230'}[q]),
+                               ('impossible', {'D8': '20201345', 'RD8': '20040101-20041345', 'D6': '041345', 'DT': '202013451230', 'TM': '2560'}[q]),
+                               ('other-format', '20040101-20040229' if q != 'RD8' else '20040229')):
+                comps = list(used)
+                comps[qi[0]] = q
+                comps[di[0]] = val
+                variants['date-%s-%s' % (q, label)] = comps
     for name, comps in variants.items():
         case = {'file': fname, 'node': mapmodel.path(b), 'composite': name, 'components': comps, 'charset': cs}
         acc.evaluations += 1
@@ -321,9 +333,12 @@ def _composite(a, b, cs, icvn, excluded, acc, fname, de):
             exp = []
             if len(comps) > n:
                 exp.append('3')
+            tl = ()
             for i, c in enumerate(b.children):
                 v = comps[i] if i < len(comps) else ''
-                e = expected_element(c, v, cs, icvn, excluded)
+                if c.de == '1250':
+                    tl = (v,) if v in c.codes else ()
+                e = expected_element(c, v, cs, icvn, excluded, type_list=tl if c.de == '1251' else ())
                 if e is None:
                     exp = None
                     break
